@@ -336,6 +336,25 @@ def t11_hmtx(run, fx):
         else:
             run.fail(rule, "hmtx-flag:%s" % fn, "%s tests %s (value %s); expected %s = %d" % (fn, consts, val, cpath.split("::")[-1], bit), "%s:%s" % (b.file, b.line))
 
+    # each flag decides about its own array: the reader consults both predicates (a branch that tests the other array's bit reads or
+    # reconstructs the wrong number of values whenever the two bits differ)
+    rd = [b for b in fx.bodies if b.kind != "Closure" and b.path.startswith("<woff2::Woff2HmtxTable as binary::read::ReadBinaryDep")]
+    if len(rd) == 1:
+        seen = {}
+        for bi, t in rd[0].calls():
+            nm = (t["callee"].get("path") or "").split("::")[-1]
+            if nm in want and rd[0].reachable(bi):
+                seen[nm] = seen.get(nm, 0) + 1
+        missing = sorted(set(want) - set(seen))
+        if missing:
+            run.fail(rule, "hmtx-flag-unused:%s" % ",".join(missing), "Woff2HmtxTable::read_dep never consults %s (it calls %s): the presence of one of the two "
+                     "arrays is decided by the other array's flag" % (", ".join(missing), ", ".join("%s x%d" % kv for kv in sorted(seen.items())) or "neither predicate"),
+                     "%s:%s" % (rd[0].file, rd[0].line))
+        else:
+            run.ok(rule, "read_dep consults both presence predicates")
+    else:
+        run.anchor_missing(rule, "<woff2::Woff2HmtxTable as ReadBinaryDep>::read_dep")
+
 
 def t11_xmin(run, fx):
     rule = "T11-XMIN"
